@@ -75,13 +75,24 @@ impl<'a> RegExp<'a> {
             .iter()
             .map(|it| {
                 let lower_test_case = it.to_lowercase();
-                if lower_test_case.chars().count() == it.chars().count() {
+                if lower_test_case.chars().count() == it.chars().count()
+                    && Self::is_case_folding_known(&lower_test_case, it)
+                {
                     lower_test_case
                 } else {
                     it.to_string()
                 }
             })
             .collect_vec();
+    }
+
+    fn is_case_folding_known(lower_test_case: &str, test_case: &str) -> bool {
+        // The case mappings of the standard library may be newer than the case folding
+        // tables of the regex crate. A test case is only converted to lowercase if the
+        // regex crate is able to map the lowercase version back to the original one.
+        lower_test_case == test_case
+            || Regex::new(&format!("(?i)^{}$", regex::escape(lower_test_case)))
+                .is_ok_and(|regex| regex.is_match(test_case))
     }
 
     fn convert_expr_to_regex(expr: &Expression, config: &RegExpConfig) -> Option<Regex> {
